@@ -65,63 +65,63 @@ type OblResult struct {
 }
 
 type JobResult struct {
-	Job        *Job
-	Paths      int
-	Infeasible int // paths ended by an unsatisfiable assumption
-	Obls       []OblResult
-	Reached    map[string]int
-	Errors     []string
-	Stats      term.Stats
-	Steps      int64
-	Decisions  int64
-	Merged     int64
+	Job         *Job
+	Paths       int
+	Infeasible  int // paths ended by an unsatisfiable assumption
+	Obls        []OblResult
+	Reached     map[string]int
+	Errors      []string
+	Stats       term.Stats
+	Steps       int64
+	Decisions   int64
+	Merged      int64
 	UnknownFeas int
-	WallMS     int64
-	Samples    []string
-	mu         sync.Mutex
-	pending    int
+	WallMS      int64
+	Samples     []string
+	mu          sync.Mutex
+	pending     int
 }
 
 // Path is the state of one symbolic path.
 type Path struct {
-	X       *Exec
-	C       *term.Ctx
-	S       *term.Session
-	job     *Job
-	res     *JobResult
-	pc      []*term.Term
-	env     map[string]*big.Int
-	benv    map[string]bool
-	memo    map[int]*big.Int
-	hasModel bool
-	trail   []Decision
-	ti      int
-	fork    func(w workItem)
-	globals map[*ssa.Global]*Object
-	nextObj int
-	spec    int
-	steps   int
-	depth   int
-	gen     int
+	X             *Exec
+	C             *term.Ctx
+	S             *term.Session
+	job           *Job
+	res           *JobResult
+	pc            []*term.Term
+	env           map[string]*big.Int
+	benv          map[string]bool
+	memo          map[int]*big.Int
+	hasModel      bool
+	trail         []Decision
+	ti            int
+	fork          func(w workItem)
+	globals       map[*ssa.Global]*Object
+	nextObj       int
+	spec          int
+	steps         int
+	depth         int
+	gen           int
 	curDeferredBy *frame
 	lastRecovered *Panic
-	onStore func(in ssa.Instruction, o *Object)
-	onLoad  func(in ssa.Instruction, o *Object)
-	inputs  map[string]*term.Term // declared nondet inputs (name -> var)
-	pool    []Pointer             // sync.Pool model
-	decisions int64
-	merged  int64
-	unknownFeas int
-	confine *confineState
-	cuts    int
-	rng     *rand.Rand
-	nonlinear bool
-	SA      *term.Session
-	absActive bool
-	ghost   map[string]Value
-	initPkg *ssa.Package
-	known   map[string]*term.Term // known-finding predicates registered on this path
-	fnSeen  map[*ssa.Function]int
+	onStore       func(in ssa.Instruction, o *Object)
+	onLoad        func(in ssa.Instruction, o *Object)
+	inputs        map[string]*term.Term // declared nondet inputs (name -> var)
+	pool          []Pointer             // sync.Pool model
+	decisions     int64
+	merged        int64
+	unknownFeas   int
+	confine       *confineState
+	cuts          int
+	rng           *rand.Rand
+	nonlinear     bool
+	SA            *term.Session
+	absActive     bool
+	ghost         map[string]Value
+	initPkg       *ssa.Package
+	known         map[string]*term.Term // known-finding predicates registered on this path
+	fnSeen        map[*ssa.Function]int
 }
 
 func (p *Path) evalT(t *term.Term) *big.Int {
@@ -278,7 +278,14 @@ func (p *Path) feasible(extra ...*term.Term) (term.Result, map[string]*big.Int, 
 					return term.Sat, env, benv
 				}
 			}
-			return term.Unknown, nil, nil
+			// exact encoding with a short limit: it often refutes quickly
+			p.S.OneStrategy = true
+			r2, e2, b2 := p.S.CheckT(p.X.NLFeasTimeout, true, true, extra...)
+			p.S.OneStrategy = false
+			if p.S.Dead() {
+				panic(engineErr{"solver process died (timeout watchdog or crash)"})
+			}
+			return r2, e2, b2
 		}
 	}
 	r, e, b := p.S.CheckT(p.feasTimeout(), false, true, extra...)
@@ -306,6 +313,7 @@ func (p *Path) addPC(c *term.Term) {
 		return
 	}
 	p.pc = append(p.pc, c)
+	p.C.Learn(c)
 	p.S.Assert(c)
 	if p.absActive {
 		p.SA.Assert(c)
@@ -365,7 +373,7 @@ func (p *Path) decide(c *term.Term, where string) bool {
 	nc := p.C.Not(c)
 	var canT, canF bool
 	var mT, mF *workItem // models for each side
-	cur := -1           // side satisfied by the current model
+	cur := -1            // side satisfied by the current model
 	if p.hasModel {
 		if p.evalT(c).Sign() != 0 {
 			canT, cur = true, 1
@@ -503,18 +511,26 @@ func (p *Path) concretizeBig(t *term.Term, where string) *big.Int {
 			break
 		}
 		if r == term.Unknown {
-			// fall back to enumerating the interval of t: every value not refuted stays
-			if t.Lo == nil || t.Hi == nil || new(big.Int).Sub(t.Hi, t.Lo).Cmp(big.NewInt(int64(p.X.MaxConcretize))) > 0 {
+			// fall back to enumerating candidate values: every value not refuted stays
+			var vals []*big.Int
+			if leaves, ok := iteLeaves(t, p.X.MaxConcretize); ok {
+				vals = leaves
+			} else if t.Lo != nil && t.Hi != nil && new(big.Int).Sub(t.Hi, t.Lo).Cmp(big.NewInt(int64(p.X.MaxConcretize))) <= 0 {
+				for v := new(big.Int).Set(t.Lo); v.Cmp(t.Hi) <= 0; v = new(big.Int).Add(v, big.NewInt(1)) {
+					vals = append(vals, v)
+				}
+			} else {
 				panic(engineErr{"UNWIND: concretize: solver unknown and the value range is not small at " + where + " for " + t.String()})
 			}
 			have := map[string]bool{}
 			for _, cd := range cands {
 				have[cd.v.String()] = true
 			}
-			for v := new(big.Int).Set(t.Lo); v.Cmp(t.Hi) <= 0; v = new(big.Int).Add(v, big.NewInt(1)) {
+			for _, v := range vals {
 				if have[v.String()] {
 					continue
 				}
+				have[v.String()] = true
 				r2, env2, benv2 := p.feasible(p.C.Eq(t, p.C.Const(v)))
 				switch r2 {
 				case term.Sat:
@@ -655,29 +671,30 @@ func (p *Path) assert(id string, c *term.Term, where string) {
 // ------------------------------------------------------------------ driver
 
 type Exec struct {
-	Prog          *ssa.Program
-	Pkgs          map[string]*ssa.Package
-	MaxSteps      int
-	MaxAlloc      int
-	MaxConcretize int
-	Timeout       time.Duration
-	intr          map[string]intrinsicFn
+	Prog              *ssa.Program
+	Pkgs              map[string]*ssa.Package
+	MaxSteps          int
+	MaxAlloc          int
+	MaxConcretize     int
+	Timeout           time.Duration
+	intr              map[string]intrinsicFn
 	rtErrType         typesType
 	typeAssertErrType typesType
-	initTemplate  bool
-	Verbose       bool
-	Contracts     map[string]bool // summaries enabled
-	initOnce      sync.Once
-	MaxPaths      int
-	FeasTimeout   time.Duration
-	SampleTries   int
-	NoMerge       bool
-	Seed          int
-	seenMu        sync.Mutex
-	seenFn        map[*ssa.Function]int
-	usedContracts map[string]int
-	mergeMu       sync.Mutex
-	mergeBad      map[ssa.Instruction]bool
+	initTemplate      bool
+	Verbose           bool
+	Contracts         map[string]bool // summaries enabled
+	initOnce          sync.Once
+	MaxPaths          int
+	FeasTimeout       time.Duration
+	NLFeasTimeout     time.Duration
+	SampleTries       int
+	NoMerge           bool
+	Seed              int
+	seenMu            sync.Mutex
+	seenFn            map[*ssa.Function]int
+	usedContracts     map[string]int
+	mergeMu           sync.Mutex
+	mergeBad          map[ssa.Instruction]bool
 }
 
 // RunJobs explores all jobs with nworkers parallel workers.
@@ -946,4 +963,81 @@ func (x *Exec) noteContract(name string) {
 	}
 	x.usedContracts[name]++
 	x.seenMu.Unlock()
+}
+
+// iteLeaves returns the constant leaves of an ite tree (nil,false if some leaf
+// is not constant or there are too many).
+func iteLeaves(t *term.Term, max int) ([]*big.Int, bool) {
+	seen := map[string]bool{}
+	var out []*big.Int
+	var rec func(x *term.Term) bool
+	visited := map[int]bool{}
+	rec = func(x *term.Term) bool {
+		if visited[x.ID] {
+			return true
+		}
+		visited[x.ID] = true
+		switch x.Op {
+		case term.OConst:
+			if !seen[x.C.String()] {
+				seen[x.C.String()] = true
+				out = append(out, x.C)
+			}
+			return len(out) <= max
+		case term.OIte:
+			return rec(x.Args[1]) && rec(x.Args[2])
+		}
+		return false
+	}
+	if !rec(t) {
+		return nil, false
+	}
+	return out, true
+}
+
+// resolveSem eliminates from t every ite whose condition is decided by the
+// path condition (checked with the solver), so that products are formed over
+// plain linear forms.
+func (p *Path) resolveSem(t *term.Term) *term.Term {
+	if p.spec > 0 {
+		return p.C.Resolve(t)
+	}
+	for round := 0; round < 4; round++ {
+		t = p.C.Resolve(t)
+		conds := p.C.IteConds(t, 12)
+		if len(conds) == 0 {
+			return t
+		}
+		learned := false
+		for _, c := range conds {
+			var guess bool
+			if p.hasModel {
+				guess = p.evalT(c).Sign() != 0
+			} else {
+				guess = true
+			}
+			test := c
+			if guess {
+				test = p.C.Not(c)
+			}
+			r, _, _ := p.S.CheckT(p.feasTimeout(), false, false, test)
+			if p.S.Dead() {
+				panic(engineErr{"solver process died (timeout watchdog or crash)"})
+			}
+			if r == term.Unsat {
+				p.C.LearnValue(c, guess)
+				learned = true
+			} else if !p.hasModel {
+				r2, _, _ := p.S.CheckT(p.feasTimeout(), false, false, c)
+				if r2 == term.Unsat {
+					p.C.LearnValue(c, false)
+					learned = true
+				}
+			}
+		}
+		if !learned {
+			return t
+		}
+	}
+	return p.C.Resolve(t)
 }
